@@ -238,6 +238,12 @@ def run(tier, seed):
     # same engine, two suspended queries
     se = same_engine_scenarios()
     chk.machine_family("one-engine-two-queries", se, features=features, opts_list=[{}, {"baton": True}])
+    # above the small cases: one script text of more than 32 KiB loaded into both engines, one fact of
+    # several hundred nodes matched by two suspended queries
+    from .. import gen as _g
+    SG = _g.scale_groups()
+    chk.machine_family("large-script-two-engines", SG["bigscript"], {"budget_extra": 20000000}, features=features, max_steps=8000)
+    chk.machine_family("large-fact-two-queries", SG["bigfact"], {"budget_extra": 20000000}, features=features, max_steps=8000)
     if tier == "thorough":
         free_run(chk, [(scns[r["id"] - 1], r) for r in recs], seed, 2000)
     else:
